@@ -54,8 +54,9 @@ def run(chk: Check, proj: Project) -> None:
     chk.borrow("S13", "the Context a fill is rendered in belongs to ONE render: no module-level Context / Template object ('the empty outer context, created once') is handed to render code - every fill rendered through it would push its variables onto the same object, so concurrently active fills (two threads, or a render started from inside a slot function) see and pop each other's variables (shared with C07-S1-G)",
                lambda sub: C07.s1g_global_objects(sub, proj, w, C07.reach_set(proj, w)))
     # variable layers of the caller's Context only (`<ctx>.push/.update`); the render_context window is C06's (F6b)
-    chk.borrow("S11", "a layer pushed on the CALLER's Context in statement form is popped also when something in between raises (shared with C06-S2b; failed renders as such are C06)",
-               lambda sub: C06.s2b_push_pop(sub, proj, w), only=lambda o: o.construct.endswith(">.push") or o.construct.endswith(">.update") or o.construct.endswith(">.dicts.insert") or o.construct.endswith(">.dicts.append"))
+    chk.borrow("S11", "a layer pushed on the CALLER's Context in statement form is popped also when something in between raises - in a context-manager generator the pop after the `yield` stands in a `finally` (shared with C06-S2b / S2a; failed renders as such are C06)",
+               lambda sub: (C06.s2b_push_pop(sub, proj, w), C06.s2a_generators(sub, proj, w)),
+               only=lambda o: o.construct.endswith(">.push") or o.construct.endswith(">.update") or o.construct.endswith(">.dicts.insert") or o.construct.endswith(">.dicts.append") or "_prepare_template" in o.construct)
 
 
 def defs_closure(f: ast.AST, name: str) -> List[ast.expr]:
@@ -127,7 +128,14 @@ def s12_layer_frame(chk: Check, proj: Project, w) -> None:
     chk.analysed(fkey(cm, cf))
     withs = [x for x in ast.walk(cf) if isinstance(x, ast.With) and any(params(cf)[-2] in norm(it.context_expr) or "context_data" in norm(it.context_expr) for it in x.items)]
     okw = bool(withs) and all(isinstance(it.context_expr, ast.Call) and isinstance(it.context_expr.func, ast.Attribute) and it.context_expr.func.attr in ("update", "push") for it in withs[0].items)
-    chk.ob("S12", "component:_prepare_template:data-layer-always-pushed", cm.loc(withs[0]) if withs else cm.loc(cf), okw if withs else None,
+    if not withs:
+        # statement form: `<ctx>.update(<data>)` / `.push(<data>)` as a top-level statement of the function (its pairing with
+        # the pop on the error path is S11's question, borrowed from C06)
+        stm = [x for x in cf.body if isinstance(x, ast.Expr) and isinstance(x.value, ast.Call) and isinstance(x.value.func, ast.Attribute) and x.value.func.attr in ("update", "push") and x.value.args and (params(cf)[-2] in norm(x.value.args[0]) or "context_data" in norm(x.value.args[0]))]
+        chk.ob("S12", "component:_prepare_template:data-layer-always-pushed", cm.loc(stm[0]) if stm else cm.loc(cf), True if stm else None,
+               "the data layer is pushed by an unconditional statement" if stm else "the push of the component's data layer was not found")
+    else:
+      chk.ob("S12", "component:_prepare_template:data-layer-always-pushed", cm.loc(withs[0]) if withs else cm.loc(cf), okw if withs else None,
            "`with context.update(<data>)` is unconditional: one layer per component render, whatever get_context_data returned" if okw else
            f"`{short(withs[0].items[0].context_expr)}` pushes the data layer only sometimes: render_func places the fill's captured variables one layer below the component layer assuming that layer exists; without it they land below the surrounding context and an outer variable of the same name wins")
     fm, ff = proj.func("slots", "FillNode._extract_fill")
